@@ -9,7 +9,16 @@ based f(A), scipy Frechet derivatives, exact rational det(A+I)-1).
 Execution-mode protocol (DESIGN C12, consequence of D11): a failure in batched mode of a routine
 that is built on eigen_sym33_unit, that passes as a single compiled call on the same input, and
 whose input has its two closest eigenvalues within 1e-6 relative, is the one known finding
-`eigen_sym33_unit|batched|near-repeated-spectrum`.  Anything else is an ordinary violation.
+`eigen_sym33_unit|batched|near-repeated-spectrum`.  The same failure pattern at a well separated spectrum is
+the known finding `eigen_sym33_unit|batched|branch-decision-tie` iff a float64 replica of the solver's exact
+comparisons shows a tie (margin <= 1e-6) on a matrix the solver receives (as in C08).  Anything else -- in
+particular every failure that also occurs as a single call -- is an ordinary violation.
+
+The orientation axis contains 9 exactly representable 45-degree configurations (q45:<axis><k>: two equal
+diagonal entries, exactly zero out-of-plane couplings) and the spectrum axis two spectra symmetric about their
+mean (deviator determinant exactly 0): inputs of that kind (pure shear, C = F^T F of a symmetric in-plane
+stretch) made np.sign return 0 inside the solver and all three eigenvalues collapse to the mean (defect D28,
+fixed); a rotation matrix with rounded entries never produces them.
 """
 import numpy as onp
 
@@ -69,6 +78,7 @@ TOLERANCES = {
 }
 
 D11_KEY = "eigen_sym33_unit|batched|near-repeated-spectrum"
+TIE_KEY = "eigen_sym33_unit|batched|branch-decision-tie"     # same root cause, separated spectrum (see C08)
 BATCH = 256
 TAU = 1e-7          # eigen_sym33_unit oracles (DESIGN; worst single-call 4.71e-10 over both tiers)
 TAU_NON_UNIT = 1e-6  # eigen_sym33_non_unit (worst single-call 3.54e-9, thorough tier, gap 1e-8)
@@ -305,7 +315,7 @@ def _tensor_cases(routine, ax, g):
             if blk % nsh != sh:
                 continue
             for ol, Q in ax["orientations"]:
-                A = R.compose(Q, lam, c)
+                A = R.compose_labelled(ol, Q, lam, c)
                 base = {"spec": sl, "kind": kind, "lam": tuple(float(c * x) for x in lam), "scale": c, "scale_l": cl,
                         "orient": ol, "Q": Q, "A": A, "block": "%s|%s" % (sl, cl),
                         "relgap": R.rel_gap(lam),
@@ -536,6 +546,31 @@ def _violation(rec, key, cid, det):
         rec.violation(key, cid, det)
 
 
+def _decision_tie(routine, c):
+    """Classification only (never a verdict), as in C08: a case that fails in the batch, passes as a single call and whose
+    spectrum is well separated belongs to the known batched-mode finding iff one of the exact floating-point comparisons
+    of eigen_sym33_unit is a tie (relative margin <= 1e-6 in a float64 replica) on a matrix the solver receives: the
+    input itself, C = F^T F for the polar decomposition, and the intermediate log(A) / exp(A) of the compositions."""
+    from mc.ref import material_ref as MR, tensor_ref as R
+    md = c.meta
+    base = _base(routine)
+    mats = [("A", md["A"] if base != "polar" else md["F"].T @ md["F"])]
+    lam = onp.asarray(md["lam"], dtype=float)
+    with onp.errstate(all="ignore"):
+        if base == "explog":
+            mats.append(("log(A)", R.fun_from_construction(md["Q"], lam, onp.log)))
+        if base == "logexp":
+            mats.append(("exp(A)", R.fun_from_construction(md["Q"], lam, onp.exp)))
+    ties = []
+    for nm, M in mats:
+        if not onp.all(onp.isfinite(M)):
+            continue
+        t, which, margin = MR.eigen_decision_tie(M)
+        if t:
+            ties.append("%s:%s(margin %.1e)" % (nm, which, margin))
+    return ties
+
+
 def _record(rec, routine, cases, results, nontrivial_fn, sample_ids, steps=1):
     """results: {mode: list of (fails, metrics, flags, out)} aligned with cases."""
     for i, c in enumerate(cases):
@@ -557,16 +592,25 @@ def _record(rec, routine, cases, results, nontrivial_fn, sample_ids, steps=1):
                 sigs = "+".join(sorted({s for s, _ in fails}))
                 d11 = (mode == "batched" and routine in EIGEN_BASED and not s_fails
                        and c.meta.get("relgap", 1.0) <= 1e-6)
+                tie = None
+                if mode == "batched" and routine in EIGEN_BASED and not s_fails and not d11:
+                    tie = _decision_tie(routine, c)
                 if d11:
                     key = D11_KEY
                     outcome = "d11:" + cls
                     rec.branch("protocol:batched-fail/single-pass/near-repeated -> D11")
+                elif tie:
+                    key = TIE_KEY
+                    outcome = "d11-tie:" + cls
+                    rec.branch("protocol:batched-fail/single-pass/eigen-solver decision tie -> D11 family (separated spectrum)")
                 else:
                     key = "%s|%s|%s|%s" % (LIBNAME[routine], mode, cls, sigs)
                     outcome = "fail:" + sigs
                     rec.branch("protocol:ordinary-violation")
                 det = _detail(c, out, fails)
                 det["single_call_passes"] = not s_fails
+                if tie:
+                    det["eigen_solver_decision_ties"] = tie
                 det["routine"] = LIBNAME[routine]
                 _violation(rec, key, cid, det)
             rec.branch("mode:" + mode)
